@@ -76,6 +76,10 @@ def run(ctx):
     r4(ctx)
     r5(ctx)
     r6(ctx)
+    from . import c11
+    from .common import reuse
+
+    reuse(ctx, "C10.R7", [c11.r2], "the supported-value lists are derived from the latest record on every call (no shared or cached list)")
 
 
 def _single_return(fnode):
